@@ -108,8 +108,18 @@ def dump (d : DSt) : String :=
     else s!" | {l}:{e}{u}")
   s!"st={st} it={it} disk={disk}" ++ String.join per
 
+/-- the pinned call-site fact behind the usage guard of `Put` (`PutGuardU`): the ONLY callers of `AccountTrieDB.Put` /
+    `CandidateTrieDB.Put` are `Manager.Save` / `CBlock.dye` (via `CandidatesRanking`, called by `Manager.Save`), the only
+    callers of `PatriciaTrie.Put` are those two wrappers, and every `Manager.Save(h)` follows `SetBlock(h, …)` in the same
+    function (consensus `saveToStore`, `SetupGenesisBlock`, the test chain).  The harness recomputes the list from the
+    current source with go/ast on every run; a new caller breaks the correspondence here. -/
+def expectedPutSites : String :=
+  "chain/account/manager.go:Save:acctDatabase,store/act_database.go:Put:db.trie,store/act_database.go:Put:db.trie,store/cblock.go:dye:block.CandidateTrieDB | chain/consensus/dpovp.go:saveToStore:after-SetBlock,chain/genesis.go:SetupGenesisBlock:after-SetBlock,chain/testchain/test_chain.go:saveBlock:after-SetBlock"
+
 def step (d : DSt) (w : List String) : DSt × String :=
   match w with
+  | "putsites" :: rest =>
+    (d, if " ".intercalate rest == expectedPutSites then "ok" else "changed: the callers of Put / Manager.Save differ from the pinned expectation")
   | ["variant", "asis"] => ({ d with fixed := false }, "ok")
   | ["variant", "fixed"] => ({ d with fixed := true }, "ok")
   | ["open"] => ({ st := openDb [] [] none, fixed := d.fixed }, "ok")
